@@ -124,6 +124,17 @@ namespace
 }
 
 
+// Mark one partition of pTask_ as done. Self-owned task sets are released here,
+// after the scheduler's final access to them.
+void TaskScheduler::PartitionComplete( ITaskSet* pTask_ )
+{
+    const bool bDelete = pTask_->m_DeleteWhenComplete;
+    if( 1 == AtomicAdd( &pTask_->m_RunningCount, -1 ) && bDelete )
+    {
+        delete pTask_;
+    }
+}
+
 static void SafeCallback(ProfilerCallbackFunc func_, uint32_t threadnum_)
 {
     if( func_ )
@@ -289,14 +300,14 @@ bool TaskScheduler::TryRunTask( uint32_t threadNum, uint32_t& hintPipeToCheck_io
             SubTaskSet taskToRun = SplitTask( subTask, subTask.pTask->m_RangeToRun );
             SplitAndAddTask( threadNum, subTask, subTask.pTask->m_RangeToRun );
             taskToRun.pTask->ExecuteRange( taskToRun.partition, threadNum );
-            AtomicAdd( &taskToRun.pTask->m_RunningCount, -1 );
+            PartitionComplete( taskToRun.pTask );
         }
         else
         {
 
             // the task has already been divided up by AddTaskSetToPipe, so just run it
             subTask.pTask->ExecuteRange( subTask.partition, threadNum );
-            AtomicAdd( &subTask.pTask->m_RunningCount, -1 );
+            PartitionComplete( subTask.pTask );
         }
     }
 
@@ -370,7 +381,7 @@ void TaskScheduler::SplitAndAddTask( uint32_t threadNum_, SubTaskSet subTask_, u
                 subTask_.partition.start = taskToAdd.partition.end;
             }
             taskToAdd.pTask->ExecuteRange( taskToAdd.partition, threadNum_ );
-            AtomicAdd( &subTask_.pTask->m_RunningCount, -1 );
+            PartitionComplete( subTask_.pTask );
         }
         else
         {
